@@ -130,7 +130,17 @@ def generate(rng, index, cfg):
             q["paths"] = [rel(d or ".")]
         else:
             q["paths"] = [rel(p) for p in rng.sample(cands, min(len(cands), rng.randint(2, 3)))]
-        if q["paths"] and rng.random() < 0.25:
+        if rng.random() < 0.12:
+            # wildcards that reach nbdime unexpanded (quoted on the command line): git's pathspec matching decides;
+            # pathspec magic only from the top directory (a prefix cannot simply be joined in front of it)
+            pats = ["*.ipynb", "*", rel(rng.choice(dirs) or ".").rstrip("/") + "/*.ipynb", rel(rng.choice(dirs) or ".").rstrip("/") + "/*",
+                    "[a-c].ipynb", "?.ipynb"]
+            if not cwd:
+                pats += [":(glob)**/b.ipynb", ":(glob)**/*.ipynb", ":!sub", ":(icase)A.IPYNB"]
+            q["paths"] = [rng.choice(pats)]
+            if q["paths"][0] == ":!sub":
+                q["paths"] = [".", ":!sub"]
+        elif q["paths"] and rng.random() < 0.25:
             # other spellings of the same pathspecs: './x', a trailing slash on directories
             def respell(pth):
                 r2 = rng.random()
